@@ -1,14 +1,17 @@
 //! `vh` — implementation executor. Reads one request per line on stdin, runs the *real* Similari
 //! code (built from /repo's working tree) on it, and prints `<request> => <implementation answer>`.
 //! Panics of the implementation are an output (`PANIC <class>`), not a crash of the harness.
+mod fam_constr;
 mod fam_nms;
 mod wire;
 
 use std::io::{BufRead, Write};
 use std::panic::{catch_unwind, AssertUnwindSafe};
 
+#[derive(Default)]
 pub struct Ctx {
     // per-case mutable state lives here (stores, trackers, ...)
+    pub constr: similari::trackers::spatio_temporal_constraints::SpatioTemporalConstraints,
 }
 
 fn exec(ctx: &mut Ctx, line: &str) -> String {
@@ -16,10 +19,11 @@ fn exec(ctx: &mut Ctx, line: &str) -> String {
     let fam = t.next();
     match fam {
         "case" => {
-            *ctx = Ctx {};
+            *ctx = Ctx::default();
             String::new()
         }
         "nms" => fam_nms::exec(ctx, &mut t),
+        "constr" => fam_constr::exec(ctx, &mut t),
         _ => format!("UNKNOWN-FAMILY {fam}"),
     }
 }
@@ -40,7 +44,7 @@ fn main() {
     let stdin = std::io::stdin();
     let stdout = std::io::stdout();
     let mut out = std::io::BufWriter::new(stdout.lock());
-    let mut ctx = Ctx {};
+    let mut ctx = Ctx::default();
     for line in stdin.lock().lines() {
         let line = line.unwrap();
         let line = line.trim();
